@@ -105,6 +105,38 @@ Fixpoint eval_ntree (rev : bool) (t : ntree) : res (list N) :=
       bind (range_node (range_fuel lo hi) rev lo hi) (fun b => Ok (nand_drain rev a b)))
   end.
 
+(* ---------------------------------------------------------------- specification of node trees *)
+(* set denotation of a node tree (independent of the merge algorithms) *)
+Definition memN (x : N) (l : list N) : bool := existsb (N.eqb x) l.
+
+Fixpoint nsem (t : ntree) (x : N) : bool :=
+  match t with
+  | NStatic d => memN x d
+  | NAnd l r => nsem l x && nsem r x
+  | NOr l r => nsem l x || nsem r x
+  | NNAnd n r => negb (nsem n x) && nsem r x
+  | NNot c lo hi => (lo <=? x) && (x <=? hi) && negb (nsem c x)
+  end.
+
+(* lo, lo+1, ..., lo+k-1 *)
+Fixpoint iota (lo : N) (k : nat) : list N :=
+  match k with O => [] | S k' => lo :: iota (lo + 1) k' end.
+
+(* every value that can possibly be selected *)
+Fixpoint universe (t : ntree) : list N :=
+  match t with
+  | NStatic d => d
+  | NAnd l r | NOr l r | NNAnd l r => universe l ++ universe r
+  | NNot c lo hi => iota lo (N.to_nat (hi + 1 - lo)) ++ universe c
+  end.
+
+Fixpoint strictly_sorted (rev : bool) (l : list N) : bool :=
+  match l with
+  | a :: ((b :: _) as l') => less rev a b && strictly_sorted rev l'
+  | _ => true
+  end.
+
+
 (* ---------------------------------------------------------------- node/builder.go: TreeFold *)
 Fixpoint tree_fold (fuel : nat) (vs : list ntree) : res ntree :=
   match fuel with
